@@ -241,6 +241,37 @@ def translate_analysis(out, names_out, untranslatable):
         untranslatable.append({"what": "analysis/utility.py kernels", "detail": str(ex)})
 
 
+def branches_on(fn_obj, flag):
+    """For a function of the form `if <flag>: return A else: return B`, or containing a conditional expression
+    `A if <flag> else B`: the pair of translated terms (flag true, flag false)."""
+    src = textwrap.dedent(inspect.getsource(fn_obj))
+    fn = ast.parse(src).body[0]
+    for st in ast.walk(fn):
+        if isinstance(st, ast.If) and isinstance(st.test, ast.Name) and st.test.id == flag and len(st.body) == 1 and isinstance(st.body[0], ast.Return) \
+                and len(st.orelse) == 1 and isinstance(st.orelse[0], ast.Return):
+            return py2e(st.body[0].value, {}), py2e(st.orelse[0].value, {})
+    exprs = [n for n in ast.walk(fn) if isinstance(n, ast.IfExp) and isinstance(n.test, ast.Name) and n.test.id == flag]
+    if exprs:
+        terms = {(py2e(n.body, {}), py2e(n.orelse, {})) for n in exprs}
+        if len(terms) != 1:
+            raise Untranslatable(f"{fn.name}: the conditional expressions on `{flag}` differ between the branches of the function")
+        return terms.pop()
+    raise Untranslatable(f"{fn.name}: no branch on `{flag}` found")
+
+
+def translate_kk(out, names_out, untranslatable):
+    """Columns of the design matrix of the linear Kramers-Kronig tests (least_squares.py), both representations."""
+    import pyimpspec.analysis.kramers_kronig.least_squares as LS
+    try:
+        for name, fn in (("kth", LS._calculate_kth_A_matrix_variables), ("cap", LS._add_capacitance_to_A_matrix), ("ind", LS._add_inductance_to_A_matrix)):
+            y, z = branches_on(fn, "admittance")
+            out.append(f"/-- `{fn.__name__}`, admittance branch -/\ndef kk_{name}_Y : E := {y}")
+            out.append(f"/-- `{fn.__name__}`, impedance branch -/\ndef kk_{name}_Z : E := {z}")
+            names_out.append(name)
+    except Untranslatable as ex:
+        untranslatable.append({"what": "Kramers-Kronig design matrix columns", "detail": str(ex)})
+
+
 def generate(gen_dir, untranslatable):
     from sympy import sympify
     from pyimpspec.circuit.registry import get_elements
@@ -266,6 +297,9 @@ def generate(gen_dir, untranslatable):
     translate_tlm(out, tlm_names, untranslatable)
     ana = []
     translate_analysis(out, ana, untranslatable)
+    kk = []
+    translate_kk(out, kk, untranslatable)
+    out.append("def kkColumns : List String := [" + ", ".join(f'"{n}"' for n in kk) + "]")
     out.append("def analysisKernels : List String := [" + ", ".join(f'"{n}"' for n in ana) + "]")
     out.append("")
     out.append("def tlmBranches : List String := [" + ", ".join(f'"{n}"' for n in tlm_names) + "]")
